@@ -1,10 +1,10 @@
 //! C02 — Piecewise::evaluate selects the half-open segment containing x.
 //! Online monitor: reference model `sel` + tag pieces (value reveals the piece) + real piece types.
 
-use crate::flat::*;
-use crate::gen::*;
-use crate::mon::*;
-use crate::probe::*;
+use ppv::flat::*;
+use ppv::gen::*;
+use ppv::mon::*;
+use ppv::probe::*;
 use piecewise_polynomial::*;
 use serde_json::json;
 
